@@ -18,10 +18,10 @@ EXPLANATION = (
 
 def run(ctx):
     repo = ctx.repo
-    r07a(ctx, repo)
-    r07b(ctx, repo)
-    r07d(ctx, repo)
-    informational(ctx, repo)
+    ctx.each(r07a, ctx, repo)
+    ctx.each(r07b, ctx, repo)
+    ctx.each(r07d, ctx, repo)
+    ctx.each(informational, ctx, repo)
 
 
 def _raised_class(r):
